@@ -23,7 +23,7 @@ Clauses(c) ==
       o2 == IF kf THEN Outcome(c, OpSymDiff_KF15(pre, c.vm, As[1])) ELSE o1
       evs == [k \in 1..Len(c.evs) |-> [removed |-> S(c.evs[k].removed), added |-> S(c.evs[k].added)]]
   IN (IF o1 = {} THEN {} ELSE IF kf /\ o2 = {} THEN {"KF15"} ELSE o1)
-     \cup (IF S(c.builtin) = r.post THEN {} ELSE {"spec-vs-builtin-set"})
+     \cup (IF "suite" \in DOMAIN c \/ S(c.builtin) = r.post THEN {} ELSE {"spec-vs-builtin-set"})   \* (test-suite records carry no builtin twin)
      \cup (IF (IF c.op \in {"construct", "copyadd"} THEN c.evs = <<>> ELSE EventsOK(pre, evs, S(c.post)))
            THEN {} ELSE {"event-law"})
 Judge == i <= 0 \/ LET f == Clauses(Trace[i]) IN IF f = {} THEN TRUE ELSE PrintT(<<"REJECT", i, f>>)
